@@ -125,5 +125,17 @@ CHECKS = {
   "note": "Trusted: clang 14 CFG; PageAllocator and std::pmr upstream are opaque; SanitizerHelper calls are value-transparent helpers.",
   "technique": "static analysis: resource-flow (acquire -> register on all paths), expression agreement with reaching definitions, ordering/dominance, "
                "special-member completeness and constant/capacity agreement over CFG facts"},
+ "C17": {
+  "text": "Decides role agreement and discipline of the page-allocator / object-pool layer: the cached allocator's allocate pops, its primary "
+          "callback only moves pages out (advancing the cursor), its reverse callback only allocates upstream, the tail allocates the "
+          "rest, the batch is bounded by the queue capacity - and deallocate is the exact mirror; destructors drain to upstream; counting "
+          "wrappers add what their siblings subtract and forward their own arguments; no value-returning member can run off its end "
+          "(violated by the original tree: finding F4, replayed and fixed); ObjectPool::push recycles exactly once before enqueueing, pop "
+          "binds the deleter to the pool and empties the slot, the deleter pushes only to a non-null pool; per-mode queue flag pairing; "
+          "Deleter moves transfer the pool pointer. The compensating paths run only when the cache is exactly full/empty under "
+          "contention, and a duplicated page is silent corruption. Exact conservation inside the pointer-arithmetic callbacks under "
+          "interleavings is not decided.",
+  "note": "Trusted: clang 14 CFG; the bounded queue's compensating batch operations (C01) deliver each slot to exactly one callback.",
+  "technique": "static analysis: role/sibling agreement of callbacks (resolved callees in lambda bodies), fall-off-end CFG rule, exactly-once counting, who-may-call pairing"},
 }
 NOT_APPLICABLE = {("C%02d" % i): PENDING for i in range(1, 21) if ("C%02d" % i) not in CHECKS}
